@@ -135,6 +135,16 @@ FROMDICT = dict(BASE, params=dict(config='dict:int'), requires=[],
                 ensures={'keys-in-order': 'len(result.attrs) == len(config) and forall(lambda i: same(result.attrs[i], key_at(config, i)), 0, len(config))',
                          'values-in-order': 'len(result.shape) == len(config) and forall(lambda i: result.shape[i] == config[key_at(config, i)], 0, len(config))'})
 
+# sorted(xs[, key=...]): a permutation of xs (extern contract of the builtin: same length, same members, distinct stays distinct);
+# WHICH permutation (the key) is not part of the contract
+SORTED_CALLEE = dict(arg_names=['xs', 'key'], defaults={'key': 'None'}, returns='seq:obj', pure=True, requires=[],
+                     ensures={'length': 'len(result) == len(xs)', 'members-in': 'all_in(result, xs)', 'members-out': 'all_in(xs, result)',
+                              'distinct': 'implies(is_distinct(xs), is_distinct(result))'})
+SORT = dict(BASE, params=dict(self='obj:Domain', how='obj:'), requires=inv('self') + ["how == 'size' or how == 'name'"],
+            ensures=dict({'same-attributes': 'all_in(result.attrs, self.attrs) and all_in(self.attrs, result.attrs) and len(result.attrs) == len(self.attrs)',
+                          'sizes-from-config': 'forall(lambda i: result.shape[i] == self.config[result.attrs[i]], 0, len(result.attrs))'},
+                         **inv_named('result', 'result-invariant')))
+
 REG_DOMAIN = {'Domain': DOMAIN_CALLEE}
 REG_M = {'Domain': DOMAIN_CALLEE, '.project': PROJECT_CALLEE, '.marginalize': MARGINALIZE_CALLEE, '.size': SIZE_CALLEE}
 
@@ -153,6 +163,7 @@ FUNCTIONS = [
     ('Domain.contains', CONTAINS, REG_M, ''),
     ('Domain.size', SIZE_ALL, REG_M, 'whole domain'),
     ('Domain.size', SIZE_SOME, REG_M, 'attribute list'),
+    ('Domain.sort', SORT, dict(REG_M, sorted=SORTED_CALLEE), 'a permutation of the attributes'),
     ('Domain.__eq__', EQ, REG_M, ''),
     ('Domain.__contains__', CONTAINS_ATTR, REG_M, ''),
     ('Domain.__getitem__', GETITEM, REG_M, ''),
